@@ -260,4 +260,24 @@ PROPS = {
         "level_text": "Many short histories (2-10 ops) each checked after every step against the function computed by a fresh value; state leaks show up as a differing result or Debug dump.",
         "level_note": "Known findings F16/F20 (help-subcommand shape depends on build timing) are keyed on their exact signatures; any other difference is a fresh violation.",
     },
+    "C12": {
+        "quick_ms": 20000,
+        "thorough_ms": 300000,
+        "floors": {"render.ok": 20000, "render.width-sweep": 20000, "helpflag.rendered": 20000, "helpflag.level-checked": 10000, "visible.checked": 50000,
+                   "visible.checked-short-only": 3000, "hidden.arg-checked": 3000, "hidden.subcommand-checked": 3000, "hidden.possible-value-checked": 300,
+                   "visible.possible-value-checked": 1000, "stratum.sparse-sections": 2000, "helpsub.rendered": 2000},
+        "rule": "wild command trees (depth <= 2; any mix of short-only/long-only flags, counts, options with value names, positionals, headings, "
+                "display orders, hidden/hide_short_help/hide_long_help/next_line_help items, possible values with hidden ones, aliases, defaults, "
+                "groups, relations, all command settings incl. flatten_help/next_line_help/hide_possible_values, benign or hostile text, custom "
+                "templates 1/8, a sparse-section stratum with disable_help_flag + 1-2 args) whose displayed names are unique markers x term widths "
+                "0..200 (+ width sweep: 4 random widths per tree; all 201 for 1/10 of the trees in thorough). Oracle: render_help / render_long_help "
+                "/ render_usage / `-h` / `--help` at every level / `help <sub>` never panic; no run of > 400 spaces, output <= 64 KiB + 6 x text x "
+                "nodes; default template: marker of every item visible in that mode present, marker of hidden subcommands, hidden possible values and "
+                "hidden arguments that no rule can make required absent from help and usage; the usage line of `path… -h` names that level.",
+        "assumptions": COMMON_ASSUME + ["a hidden argument is 'optional' only if no rule could make it required (required, required_if/unless, named in some requires, member of a required group with a visible alternative is still checked)",
+                                        "a required group whose members are all hidden legitimately names them"],
+        "technique": "runtime totality monitor + marker-set invariant (mention/omission) on rendered help and usage across widths",
+        "level_text": "Every rendering is executed under the panic/size monitor and judged by marker presence/absence; visibility is restated independently of help_template.rs.",
+        "level_note": "Trusted: the visibility restatement (hide / hide_short_help / hide_long_help / next_line_help quirk) and the marker renaming.",
+    },
 }
